@@ -117,7 +117,7 @@ def execute(histories, tags, cids, nproc=None, chunk=25):
 # --------------------------------------------------------------------------
 def random_history(rng, length, weights=None):
     w = dict(apply=3, fit=5, set=4, rate=1, scan=.3, getinit=1,
-             mutate_pi=1, mutate_pl=1, unknown=.4, orphan=.4)
+             mutate_pi=1, mutate_pl=1, unknown=.4, orphan=.4, alias_pl=.5)
     if weights:
         w.update(weights)
     kinds, ws = zip(*w.items())
@@ -175,6 +175,20 @@ def random_history(rng, length, weights=None):
         elif kind == "unknown":
             hist.append(rng.choice([{"op": "set_unknown"},
                                     {"op": "fit_unknown", "kw": {}}]))
+        elif kind == "alias_pl":
+            # pass a (steps, options) object, edit it in place (also inside
+            # the nested option dictionaries), pass it again
+            pa, pb = rng.choice([("P1b", "P1d"), ("P1d", "P1b"),
+                                 ("P2", "P4"), ("P1", "P1b"), ("P1b", "B3")])
+            use_fit = rng.random() < .6
+
+            def call(p):
+                if use_fit:
+                    return {"op": "fit", "kw": {}, "pipe": p,
+                            "via_pl": "obj"}
+                return {"op": "apply", "pipe": p, "via": "obj"}
+            hist += [{"op": "mutate_pl", "pipe": pa}, call(pa),
+                     {"op": "mutate_pl", "pipe": pb}, call(pb)]
         elif kind == "orphan":
             hist.append({"op": "fit", "kw": {},
                          "opts_only": rng.choice(["P1b", "P2", "P4", "P1"])})
